@@ -6,9 +6,11 @@ C14 — representation-only options do not change what the models accept.
 
 Stage 1 (`Dcg.Model.Translate.tr`) takes the whole option vector `Opts`; the theorems below say
 which of its fields can influence the verdict `acceptsTy` of the generated model.
-Options that do not reach stage 1 at all (target version, formatters, keep_model_order) and the
-post-passes reuse_model / collapse_root_models are NOT modelled: for them the property rests on the
-differential oracle between two real runs (vlib/props/c14.py).
+Every option of the property text is a field of `Opts`. Options that act after stage 1: the order of the
+classes (`keep_model_order`) is proved immaterial, a `reuse_model` merge is proved sound for identical
+classes (that the real pass merges only those is a run-time campaign), `collapse_root_models` is proved for
+unconstrained root models and refuted for constrained ones (D39); target version, formatters and quotes
+change text only — differential oracle between two real runs (vlib/props/c14.py).
 -/
 namespace Dcg.Props.C14
 open Dcg.Sem Dcg.Sem.Pyd Dcg.Model.Constraints Dcg.Model.Translate Dcg.Proofs.Sem
